@@ -299,9 +299,16 @@ def format_template(node):
                 t += '{%s%s}' % (conv, (':' + spec) if spec else '')
                 args.append(norm(v.value))
         return t, args
-    if isinstance(node, ast.Call) and isinstance(node.func, ast.Attribute) and node.func.attr == 'format' and isinstance(node.func.value, ast.Constant) \
-            and isinstance(node.func.value.value, str) and not node.keywords:
-        txt = node.func.value.value
+    def _const_str(e):
+        # a string literal, or literals joined with +
+        if isinstance(e, ast.Constant) and isinstance(e.value, str):
+            return e.value
+        if isinstance(e, ast.BinOp) and isinstance(e.op, ast.Add):
+            a_, b_ = _const_str(e.left), _const_str(e.right)
+            return a_ + b_ if a_ is not None and b_ is not None else None
+        return None
+    if isinstance(node, ast.Call) and isinstance(node.func, ast.Attribute) and node.func.attr == 'format' and _const_str(node.func.value) is not None and not node.keywords:
+        txt = _const_str(node.func.value)
         args, out, pos, auto = [], '', 0, 0
         for mt in re.finditer(r'\{(\d*)((?:![sra])?)((?::[^{}]*)?)\}', txt):
             out += txt[pos:mt.start()]
